@@ -27,6 +27,19 @@
 (* reports the failure, the memory layer keeps its nodes, and further      *)
 (* commits follow: a retry of the same root or the next block on top).     *)
 (*                                                                         *)
+(* Several states share the memory layer: InsertTrie(r) is the AccountDB-   *)
+(* level commit of a state (its new nodes enter mem, in flush-list order    *)
+(* flist), CommitBegin(r) .. CommitEnd is NodeDatabase.Commit(r) (persist); *)
+(* any number of states (siblings on one parent: disjoint, overlapping or   *)
+(* identical sub-DAGs, Init chooses the DAG freely) may be inserted before  *)
+(* any of them is persisted, and they are persisted in any order, with      *)
+(* crashes and failing writes in between.  NodeDatabase.Commit of a root    *)
+(* that is not (any more) in mem writes nothing and reports success - as    *)
+(* the code does ("previously committed node").                             *)
+(* Uncache = "walk" is the code (uncache removes exactly the persisted      *)
+(* trie); "prefix" is a third negative control (drop the flush-list up to   *)
+(* the root): TLC must find a reported-durable root that is not on disk.    *)
+(*                                                                         *)
 (* Dedup = TRUE is a second negative control: a "put each shared node only *)
 (* once" flag kept on the cached node (set when the node is put into a     *)
 (* batch, the walk skips flagged nodes, the flags die with uncache / a     *)
@@ -45,10 +58,13 @@ CONSTANTS Nodes,      \* 1..N
           Crashes,    \* BOOLEAN: explore process death at any point
           Order,      \* "post" | "pre"
           WriteFailures, \* BOOLEAN: explore physical writes that return an error
-          Dedup       \* BOOLEAN: the flagged-node shortcut (negative control)
+          Dedup,      \* BOOLEAN: the flagged-node shortcut (negative control)
+          Uncache     \* "walk" | "prefix" (negative control)
 
-VARIABLES children, mem, disk, batch, stack, durable, pc, commits, target, flushed
-vars == <<children, mem, disk, batch, stack, durable, pc, commits, target, flushed>>
+VARIABLES children, mem, disk, batch, stack, durable, pc, commits, target, flushed,
+          inserted,   \* roots whose AccountDB-level commit returned in this process life
+          flist       \* mem in insertion order (the flush-list)
+vars == <<children, mem, disk, batch, stack, durable, pc, commits, target, flushed, inserted, flist>>
 
 RECURSIVE ClosureOf(_, _)
 ClosureOf(ch, n) == {n} \cup UNION {ClosureOf(ch, c) : c \in ch[n]}
@@ -58,22 +74,35 @@ Init == /\ children \in [Nodes -> SUBSET Nodes]
         /\ \A n \in Nodes : \A c \in children[n] : c < n
         /\ mem = {} /\ disk = {} /\ batch = {} /\ stack = <<>>
         /\ durable = {} /\ pc = "idle" /\ commits = 0 /\ target = 0 /\ flushed = {}
+        /\ inserted = {} /\ flist = <<>>
 
 (* Trie.Commit: every node of the trie that is not known yet enters mem *)
+RECURSIVE PostOrder(_, _)
+(* the nodes of todo (a set) and below, children before parents, each once, skipping `have` *)
+PostOrder(todo, have) ==
+  IF todo = {} THEN <<>>
+  ELSE LET n == CHOOSE x \in todo : \A y \in todo : x <= y
+       IN  IF n \in have THEN PostOrder(todo \ {n}, have)
+           ELSE LET below == PostOrder(children[n], have)
+                    seen  == have \cup {below[i] : i \in 1..Len(below)}
+                IN  below \o <<n>> \o PostOrder(todo \ {n}, seen \cup {n})
+
 InsertTrie(r) ==
   /\ pc = "idle"
-  /\ r \notin mem \cup disk
-  /\ mem' = mem \cup (Closure(r) \ disk)
+  /\ r \notin inserted
+  /\ LET new == PostOrder({r}, mem \cup disk)        \* hasher.store: children first, known nodes skipped
+     IN  /\ mem' = mem \cup {new[i] : i \in 1..Len(new)}
+         /\ flist' = flist \o new
+  /\ inserted' = inserted \cup {r}
   /\ UNCHANGED <<children, disk, batch, stack, durable, pc, commits, target, flushed>>
 
 CommitBegin(r) ==
   /\ pc = "idle" /\ commits < MaxCommits
-  /\ r \in mem
+  /\ r \in inserted
   /\ pc' = "walk" /\ target' = r /\ commits' = commits + 1
   /\ batch' = {}
   /\ stack' = << <<r, children[r]>> >>
-  /\ mem' = mem
-  /\ UNCHANGED <<children, disk, durable, flushed>>
+  /\ UNCHANGED <<children, mem, disk, durable, flushed, inserted, flist>>
 
 Top == stack[Len(stack)]
 Pop == SubSeq(stack, 1, Len(stack) - 1)
@@ -82,7 +111,7 @@ Pop == SubSeq(stack, 1, Len(stack) - 1)
 SkipKnown ==
   /\ pc = "walk" /\ stack # <<>> /\ (Top[1] \notin mem \/ (Dedup /\ Top[1] \in flushed))
   /\ stack' = Pop
-  /\ UNCHANGED <<children, mem, disk, batch, durable, pc, commits, target, flushed>>
+  /\ UNCHANGED <<children, mem, disk, batch, durable, pc, commits, target, flushed, inserted, flist>>
 
 PutIt(n) == /\ batch' = batch \cup {n}
             /\ flushed' = IF Dedup THEN flushed \cup {n} ELSE flushed
@@ -96,29 +125,34 @@ Descend ==
   /\ (IF Order = "pre" /\ Top[2] = children[Top[1]]
         THEN PutIt(Top[1])            \* negative control: parent before its children
         ELSE UNCHANGED <<batch, pc, flushed>>)
-  /\ UNCHANGED <<children, mem, disk, durable, commits, target>>
+  /\ UNCHANGED <<children, mem, disk, durable, commits, target, inserted, flist>>
 
 PutNode ==
   /\ pc = "walk" /\ stack # <<>> /\ Walkable(Top[1]) /\ Top[2] = {}
   /\ stack' = Pop
   /\ (IF Order = "pre" /\ children[Top[1]] # {} THEN UNCHANGED <<batch, pc, flushed>> ELSE PutIt(Top[1]))
-  /\ UNCHANGED <<children, mem, disk, durable, commits, target>>
+  /\ UNCHANGED <<children, mem, disk, durable, commits, target, inserted, flist>>
 
 (* batch.Write(): atomic *)
 Flush ==
   /\ pc = "flush"
   /\ disk' = disk \cup batch /\ batch' = {} /\ pc' = "walk"
-  /\ UNCHANGED <<children, mem, stack, durable, commits, target, flushed>>
+  /\ UNCHANGED <<children, mem, stack, durable, commits, target, flushed, inserted, flist>>
 
 (* the final batch.Write(), then uncache, then Commit returns nil *)
+Position(n) == CHOOSE i \in 1..Len(flist) : flist[i] = n
+Dropped ==   \* what uncache removes from the memory layer
+  IF Uncache = "walk" THEN mem \cap Closure(target)
+  ELSE IF target \in mem THEN {flist[i] : i \in 1..Position(target)} ELSE {}
 CommitEnd ==
   /\ pc = "walk" /\ stack = <<>>
   /\ disk' = disk \cup batch /\ batch' = {}
-  /\ mem' = mem \ Closure(target)
+  /\ mem' = mem \ Dropped
+  /\ flist' = SelectSeq(flist, LAMBDA n : n \notin Dropped)
   /\ durable' = durable \cup {target}
   /\ pc' = "idle"
-  /\ flushed' = flushed \ Closure(target)          \* the flags go with the uncached nodes
-  /\ UNCHANGED <<children, stack, commits, target>>
+  /\ flushed' = flushed \ Dropped                  \* the flags go with the uncached nodes
+  /\ UNCHANGED <<children, stack, commits, target, inserted>>
 
 (* a physical write (one in the middle of the walk, or the final one) returns an error: *)
 (* nothing of the batch is on disk, Commit returns the error without uncaching          *)
@@ -126,12 +160,13 @@ WriteFails ==
   /\ WriteFailures
   /\ (pc = "flush" \/ (pc = "walk" /\ stack = <<>>))
   /\ batch' = {} /\ stack' = <<>> /\ pc' = "idle"
-  /\ UNCHANGED <<children, mem, disk, durable, commits, target, flushed>>
+  /\ UNCHANGED <<children, mem, disk, durable, commits, target, flushed, inserted, flist>>
 
 Crash ==
   /\ Crashes
   /\ (pc # "idle" \/ mem # {})
   /\ mem' = {} /\ batch' = {} /\ stack' = <<>> /\ pc' = "idle" /\ flushed' = {}
+  /\ inserted' = {} /\ flist' = <<>>
   /\ UNCHANGED <<children, disk, durable, commits, target>>
 
 Next ==
